@@ -357,6 +357,21 @@ theorem tcGuards_head_prefix (Γ : Env) (k : GuardK) (e : Expr) (post : GuardLis
       all_goals simpa [hl] using hk
   | else_ ln => simp [GuardK.pre] at hk
 
+/-- what `tcGuards` does with a record guard before it goes on: resolve, count the binds, open
+the block of the binds, check the arm -/
+def recdHead (Γ : Env) (ln : Ln) (en it : String) (binds : List (Ln × String)) (e : Expr) : Except Diag Comb := do
+  guardItemPre Γ ln en it
+  guardBindsOk Γ ln en it binds
+  let Γb ← bindsEnv Γ en it binds
+  tc Γb e
+
+theorem tcGuards_recd (Γ : Env) (ln : Ln) (en it : String) (binds : List (Ln × String)) (e : Expr)
+    (t : GuardList) :
+    tcGuards Γ (.cons (.recd ln en it binds e) t) =
+      recdHead Γ ln en it binds e >>= fun c => tcGuards Γ t >>= fun cs => pure (c :: cs) := by
+  simp only [tcGuards, recdHead]
+  cases guardItemPre Γ ln en it <;> simp
+
 theorem tcGuards_app_error (Γ : Env) (rest : GuardList) (d : Diag) (hr : tcGuards Γ rest = .error d) :
     (pre : GuardList) → (cs : List Comb) → tcGuards Γ pre = .ok cs →
     tcGuards Γ (pre.app rest) = .error d
@@ -380,6 +395,17 @@ theorem tcGuards_app_error (Γ : Env) (rest : GuardList) (d : Diag) (hr : tcGuar
             | ok cs' => simp [ih cs' ht]
         · simp [hl, hc] at hp
       all_goals simp [hl] at hp
+  | .cons (.recd ln en it binds e) t, cs, hp => by
+    have ih := tcGuards_app_error Γ rest d hr t
+    simp only [GuardList.app] at *
+    rw [tcGuards_recd] at hp ⊢
+    cases he : recdHead Γ ln en it binds e with
+    | error d' => simp [he] at hp
+    | ok c =>
+      simp [he] at hp ⊢
+      cases ht : tcGuards Γ t with
+      | error d' => simp [ht] at hp
+      | ok cs' => simp [ih cs' ht]
   | .cons (.else_ ln e) t, cs, hp => by
     have ih := tcGuards_app_error Γ rest d hr t
     simp only [GuardList.app, tcGuards] at *
@@ -414,6 +440,17 @@ theorem tcGuards_app_prefix (Γ : Env) (rest : GuardList) :
             | ok cs' => simp [ht] at hp
         · simpa [hl, hc] using hp
       all_goals simpa [hl] using hp
+  | .cons (.recd ln en it binds e) t, d, hp => by
+    have ih := tcGuards_app_prefix Γ rest t
+    simp only [GuardList.app] at *
+    rw [tcGuards_recd] at hp ⊢
+    cases he : recdHead Γ ln en it binds e with
+    | error d' => simpa [he] using hp
+    | ok c =>
+      simp [he] at hp ⊢
+      cases ht : tcGuards Γ t with
+      | error d' => simp [ht] at hp; subst hp; simp [ih d' ht]
+      | ok cs' => simp [ht] at hp
   | .cons (.else_ ln e) t, d, hp => by
     have ih := tcGuards_app_prefix Γ rest t
     simp only [GuardList.app, tcGuards] at *
